@@ -414,6 +414,8 @@ def truth_of(expr, env):
         if k is not None and k in env:
             return env[k]
         return env.get('*.' + expr.attr, (None, None))
+    if isinstance(expr, ast.List) and not expr.elts:
+        return (False, ('LEN', 0))          # a fresh empty list: its length is followed through appends (2 = two or more)
     if isinstance(expr, (ast.Tuple, ast.List)):
         elts = tuple(truth_of(e, env) for e in expr.elts)
         return (bool(elts), elts)
@@ -461,6 +463,18 @@ def truth_of(expr, env):
         return (True if lit else None, None)
     if isinstance(expr, ast.Compare) and len(expr.ops) == 1:
         l, r, op = expr.left, expr.comparators[0], expr.ops[0]
+        # len(<list whose length is known>) behaves like a small counter
+        if isinstance(l, ast.Call) and isinstance(l.func, ast.Name) and l.func.id == 'len' and len(l.args) == 1:
+            lm = truth_of(l.args[0], env)[1]
+            if isinstance(lm, tuple) and lm and lm[0] == 'LEN' and isinstance(r, ast.Constant) and isinstance(r.value, int) \
+                    and not isinstance(r.value, bool):
+                k = r.value
+                cands = [lm[1]] if lm[1] < 2 else [2, 3, 1000]
+                fn = {ast.Eq: lambda a: a == k, ast.NotEq: lambda a: a != k, ast.Lt: lambda a: a < k, ast.LtE: lambda a: a <= k,
+                      ast.Gt: lambda a: a > k, ast.GtE: lambda a: a >= k}.get(type(op))
+                if fn is not None:
+                    res = {fn(a) for a in cands}
+                    return (res.pop(), None) if len(res) == 1 else (None, None)
         # small counters against integer literals
         lv, rv = truth_of(l, env)[1], truth_of(r, env)[1]
         if isinstance(lv, tuple) and lv and lv[0] == 'INT' and isinstance(r, ast.Constant) and isinstance(r.value, int) \
@@ -607,7 +621,7 @@ def OBJECT_ITER(it):
     return isinstance(it, ast.Attribute) and it.attr in ('SectorList', 'CountryList', 'CurrencyZoneList')
 
 
-def truth_transfer(node, env):
+def truth_transfer(node, env, obj_iter=None):
     """environment after the normal completion of a CFG node"""
     env = dict(env)
     a = node.ast
@@ -638,7 +652,11 @@ def truth_transfer(node, env):
                     env.pop(a.target.id, None)
         elif isinstance(a, ast.Expr) and isinstance(a.value, ast.Call) and isinstance(a.value.func, ast.Attribute) and \
                 isinstance(a.value.func.value, ast.Name) and a.value.func.attr in ('append', 'add', 'insert'):
-            env[a.value.func.value.id] = (True, None)       # a container that received an element is non-empty
+            oldm = env.get(a.value.func.value.id, (None, None))[1]
+            if a.value.func.attr == 'append' and isinstance(oldm, tuple) and oldm and oldm[0] == 'LEN':
+                env[a.value.func.value.id] = (True, ('LEN', min(2, oldm[1] + 1)))
+            else:
+                env[a.value.func.value.id] = (True, None)       # a container that received an element is non-empty
         elif isinstance(a, ast.Expr) and isinstance(a.value, ast.Call) and isinstance(a.value.func, ast.Attribute) and \
                 isinstance(a.value.func.value, ast.Name) and a.value.func.attr in ('pop', 'remove', 'clear', 'extend', 'update', 'discard'):
             env.pop(a.value.func.value.id, None)
@@ -647,7 +665,7 @@ def truth_transfer(node, env):
                 if isinstance(n, ast.Name):
                     env.pop(n.id, None)
     elif node.kind == 'for':
-        objs = isinstance(a.target, ast.Name) and OBJECT_ITER(a.iter)
+        objs = isinstance(a.target, ast.Name) and (obj_iter or OBJECT_ITER)(a.iter)
         for n in ast.walk(a.target):
             if isinstance(n, ast.Name):
                 env.pop(n.id, None)
@@ -667,7 +685,7 @@ def truth_transfer(node, env):
     return env
 
 
-def truth_search(g, starts, targets, stop_edge=None, env0=None, limit=200000, extra0=None, step=None):
+def truth_search(g, starts, targets, stop_edge=None, env0=None, limit=200000, extra0=None, step=None, obj_iter=None):
     """target node ids reachable from `starts` on paths that are feasible under truthiness propagation.
     stop_edge(a, b, label) -> True cuts the edge.  An optional hashable `extra` component of the state is advanced by
     step(extra, node, label, env_before) on every edge taken.  Returns (hits, seen): hits = {target id: state key},
@@ -706,7 +724,7 @@ def truth_search(g, starts, targets, stop_edge=None, env0=None, limit=200000, ex
                 if node.kind == 'test' and tv is not None and lab in (True, False) and lab != tv:
                     continue
                 if after is None:
-                    after = truth_transfer(node, env)
+                    after = truth_transfer(node, env, obj_iter)
                 nenv = after
                 if node.kind == 'test' and lab in (True, False):
                     nenv = _refine(node.ast, lab, nenv)
